@@ -523,6 +523,59 @@ def outcome(text, pol, env=None):
     return tuple(CP(cond_str(t, env), p) for _, t, p in _outcome(ast.parse(text, mode='eval').body, pol))
 
 
+class _StoreSubst(ast.NodeTransformer):
+    def __init__(self, store):
+        self.store = store
+
+    def visit_Name(self, n):
+        if isinstance(n.ctx, ast.Load) and n.id in self.store:
+            import copy as _copy
+            return _copy.deepcopy(self.store[n.id])
+        return n
+
+    def visit_IfExp(self, n):
+        self.generic_visit(n)
+        if isinstance(n.test, ast.Constant):
+            return n.body if n.test.value else n.orelse
+        return n
+
+
+def path_store(p, upto=None):
+    """Symbolic store {local name: expression AST} after the statements of one path (sa/paths.Path), assignments substituted in
+    order; stops before the statement that contains `upto` when given.  Names assigned in a loop that the path entered keep
+    their last value on the path (one unrolling)."""
+    store = {}
+    for ev in p.events:
+        if ev[0] != 'stmt':
+            continue
+        st = ev[1]
+        if upto is not None and any(x is upto for x in ast.walk(st)):
+            break
+        if isinstance(st, ast.Assign) and len(st.targets) == 1 and isinstance(st.targets[0], ast.Name):
+            import copy as _copy
+            store[st.targets[0].id] = _StoreSubst(store).visit(_copy.deepcopy(st.value))
+        elif isinstance(st, ast.AugAssign) and isinstance(st.target, ast.Name):
+            import copy as _copy
+            cur = store.get(st.target.id, ast.Name(id=st.target.id, ctx=ast.Load()))
+            store[st.target.id] = ast.BinOp(left=_copy.deepcopy(cur), op=st.op, right=_StoreSubst(store).visit(_copy.deepcopy(st.value)))
+        else:
+            for x in ast.walk(st):
+                if isinstance(x, ast.Name) and isinstance(x.ctx, ast.Store):
+                    store.pop(x.id, None)
+    return store
+
+
+def path_value(p, node, env=None, upto=None):
+    """normal form of an expression as seen at the end of a path (or just before the statement containing `upto`): locals are
+    replaced by what the path assigned to them, conditional expressions on constants folded -- `x if found else None` after
+    `found = True` is x, and `size` after `size = n; size //= 2` is n // 2, whichever way the code spelled it"""
+    import copy as _copy
+    store = path_store(p, upto)
+    e = _StoreSubst(store).visit(_copy.deepcopy(node))
+    ast.fix_missing_locations(e)
+    return nfs(e, env or FEnv())
+
+
 def neg(cp):
     """the opposite outcome of a (condition, polarity) pair"""
     return CP(cp[0], not cp[1])
